@@ -269,15 +269,23 @@ def a_plant(draw, cx, name, fuel=None):
     return a
 
 
-def markets(cx, prefix="m", lo_price=0.5, hi_price=14.0, cap_q=64.0):
-    """a buy-dear / sell-cheap pair with large capacity at every node: feasibility by construction"""
+def markets(cx, prefix="m", lo_price=0.5, hi_price=14.0, cap_q=64.0, draw=None):
+    """a buy-dear / sell-cheap pair with large capacity at every node: feasibility by construction.
+    With `draw` every node gets its own price level (so that conversion between nodes can pay)."""
     out = []
     cx.prices["pm_hi"] = [hi_price] * cx.T
     cx.prices["pm_lo"] = [lo_price] * cx.T
     for i, n in enumerate(cx.nodes):
-        out.append({"type": "simple", "name": "%sb%d" % (prefix, i), "nodes": [n], "price": "pm_hi",
+        hi_name, lo_name = "pm_hi", "pm_lo"
+        if draw is not None and draw(st.booleans()):
+            hi = draw(st.sampled_from([14.0, 8.0, 4.0, 2.0, 1.0]))
+            lo = min(hi, draw(st.sampled_from([0.5, 1.0, 3.0, 6.0])))
+            hi_name, lo_name = "pm_hi%d" % i, "pm_lo%d" % i
+            cx.prices[hi_name] = [hi] * cx.T
+            cx.prices[lo_name] = [lo] * cx.T
+        out.append({"type": "simple", "name": "%sb%d" % (prefix, i), "nodes": [n], "price": hi_name,
                     "min_cap": 0.0, "max_cap": cap_q / cx.dt0, "extra_costs": 0.0, "wacc": 0.0})
-        out.append({"type": "simple", "name": "%ss%d" % (prefix, i), "nodes": [n], "price": "pm_lo",
+        out.append({"type": "simple", "name": "%ss%d" % (prefix, i), "nodes": [n], "price": lo_name,
                     "min_cap": -cap_q / cx.dt0, "max_cap": 0.0, "extra_costs": 0.0, "wacc": 0.0})
     return out
 
@@ -331,7 +339,7 @@ def portfolios(draw, classes=None, min_assets=1, max_assets=5, max_nodes=3, with
         assets.append(draw_asset(draw, cx, cls, "a%d" % i))
     mk = draw(st.floats(0, 1)) < with_markets
     if mk:
-        assets += markets(cx)
+        assets += markets(cx, draw=draw)
     return {"grid": g, "prices": cx.prices, "assets": assets, "markets": mk}
 
 
@@ -369,10 +377,13 @@ def a_structured(draw, cx, name, with_window=True):
 
 
 def a_chp(draw, cx, name):
+    k = 3 if draw(st.integers(0, 9)) < 6 else 2
+    while len(cx.nodes) < k and len(cx.nodes) < 4:
+        cx.nodes.append("n%d" % len(cx.nodes))     # markets are attached to every node afterwards
     if len(cx.nodes) < 2:
         return a_plant(draw, cx, name, fuel=False)
     nodes = list(draw(st.permutations(cx.nodes)))
-    k = 3 if (len(nodes) >= 3 and draw(st.booleans())) else 2
+    k = min(k, len(nodes))
     maxc = rate(draw, cx, 2, 4)
     a = {"type": "chp", "name": name, "nodes": nodes[:k], "price": draw(st.sampled_from(cx.price_names())),
          "min_cap": maxc * draw(st.sampled_from([0.0, 0.25, 0.5])), "max_cap": maxc, "extra_costs": 0.0,
@@ -457,5 +468,38 @@ def portfolios_all(draw, classes=None, min_assets=1, max_assets=5, max_nodes=3, 
     assets = [draw_any(draw, cx, c, "a%d" % i) for i, c in enumerate(chosen)]
     mk = draw(st.floats(0, 1)) < with_markets
     if mk:
-        assets += markets(cx)
+        assets += markets(cx, draw=draw)
     return {"grid": g, "prices": cx.prices, "assets": assets, "markets": mk}
+
+
+NODE_POOL = ["1", "11", "N1", "N11", "n", "nn", "0", "10", "a", "a1", "node 1", "1_internal_1"]
+
+
+def rename_nodes(draw, spec):
+    """injective renaming of all node names from an adversarial pool (in place)"""
+    names = []
+
+    def visit(a):
+        for n in a.get("nodes", []):
+            if n not in names:
+                names.append(n)
+        for x in a.get("assets", []):
+            visit(x)
+        if "base" in a:
+            visit(a["base"])
+    for a in spec["assets"]:
+        visit(a)
+    new = draw(st.lists(st.sampled_from(NODE_POOL), min_size=len(names), max_size=len(names), unique=True))
+    m = dict(zip(names, new))
+
+    def fix(a):
+        if "nodes" in a:
+            a["nodes"] = [m[n] for n in a["nodes"]]
+        for x in a.get("assets", []):
+            fix(x)
+        if "base" in a:
+            fix(a["base"])
+    for a in spec["assets"]:
+        fix(a)
+    spec["node_names"] = "adversarial"
+    return spec
